@@ -437,6 +437,16 @@ func (r *run) step(t fataler, spec cmdSpec, plan map[string]outcome) {
 	if fmt.Sprint(got) != fmt.Sprint(wantCalls) {
 		r.fail(t, "%s in state %s (permitted=%v): backend calls %v, the model expects %v", spec.name, before, permitted, got, wantCalls)
 	}
+	// Session.Poll is a session operation too: it may only be reached while
+	// somebody is logged in. It runs after the handler, i.e. in the state
+	// the command leaves the connection in.
+	if after == sNotAuth || after == sLogout {
+		for _, c := range r.core.AllCalls() {
+			if c.Method == "Poll" {
+				r.fail(t, "%s in state %s leaves the connection in state %s, yet the backend was polled for mailbox updates (Session.Poll) on its behalf", spec.name, before, after)
+			}
+		}
+	}
 	if ok && final.Status != "OK" {
 		r.fail(t, "%s in state %s: permitted and every backend call succeeded, but the server answered %s %s", spec.name, before, final.Status, final.Text)
 	}
